@@ -54,11 +54,12 @@ type chainView struct {
 	votes map[int]common.Uint256     // vote id -> refer key
 	vinfo map[int]payload.VotesWithLockTime
 	vprod map[int]string
+	su    map[string]uint32 // producer -> StakeUntil it registered / upgraded with
 }
 
 func newChainView() *chainView {
 	return &chainView{utxo: map[string][]utxoEnt{}, v1: map[string]utxoEnt{}, votes: map[int]common.Uint256{},
-		vinfo: map[int]payload.VotesWithLockTime{}, vprod: map[int]string{}}
+		vinfo: map[int]payload.VotesWithLockTime{}, vprod: map[int]string{}, su: map[string]uint32{}}
 }
 
 func (c *chainView) clone() *chainView {
@@ -77,6 +78,9 @@ func (c *chainView) clone() *chainView {
 	}
 	for k, v := range c.vprod {
 		n.vprod[k] = v
+	}
+	for k, v := range c.su {
+		n.su[k] = v
 	}
 	return n
 }
@@ -145,19 +149,17 @@ func build(h uint32, items []item, nid int, cv *chainView, fork int) *builtBlock
 				su, amt = uint32(specSU), common.Fixed64(cfgMinDepositV2)*ELA
 			}
 			tx = txRegister(p, it.P+"-0", su, amt, salt)
+			after.su[it.P] = su
 			after.utxo[it.P] = []utxoEnt{{common2.OutPoint{TxID: tx.Hash(), Index: 0}, amt}}
 		case "Upd":
 			p := producers[it.P]
-			// the nickname toggles; x = 1 upgrades a v1 producer to v1v2
-			tx = txUpdate(p, fmt.Sprintf("%s-u%d", it.P, salt), func() uint32 {
-				if it.X == 1 || it.P == "p3" {
-					return uint32(specSU)
-				}
-				if it.Y != 0 {
-					return uint32(it.Y)
-				}
-				return 0
-			}(), salt)
+			// the nickname changes; x = 1 upgrades a v1 producer to v1v2, otherwise StakeUntil stays
+			su := cv.su[it.P]
+			if it.X == 1 {
+				su = uint32(specSU)
+				after.su[it.P] = su
+			}
+			tx = txUpdate(p, fmt.Sprintf("%s-u%d", it.P, salt), su, salt)
 		case "Can":
 			tx = txCancel(producers[it.P], salt)
 		case "Act":
@@ -176,7 +178,7 @@ func build(h uint32, items []item, nid int, cv *chainView, fork int) *builtBlock
 		case "Vote2":
 			p := producers[it.P]
 			tx = txVoteV2(voters[it.A], p, common.Fixed64(it.X)*ELA, uint32(it.Y), salt)
-			info := payload.VotesWithLockTime{Candidate: p.node.pub, Votes: common.Fixed64(it.X) * ELA, LockTime: uint32(it.Y)}
+			info := payload.VotesWithLockTime{Candidate: p.owner.pub, Votes: common.Fixed64(it.X) * ELA, LockTime: uint32(it.Y)}
 			dvi := payload.DetailedVoteInfo{StakeProgramHash: voters[it.A].stakeAddr, TransactionHash: tx.Hash(), BlockHeight: h,
 				PayloadVersion: tx.PayloadVersion(), VoteType: outputpayload.DposV2, Info: []payload.VotesWithLockTime{info}}
 			after.votes[vid] = dvi.ReferKey()
@@ -187,7 +189,7 @@ func build(h uint32, items []item, nid int, cv *chainView, fork int) *builtBlock
 			pn := cv.vprod[it.X]
 			p := producers[pn]
 			tx = txRenew(voters[it.A], p, cv.votes[it.X], old.Votes, uint32(it.Y), salt)
-			info := payload.VotesWithLockTime{Candidate: p.node.pub, Votes: old.Votes, LockTime: uint32(it.Y)}
+			info := payload.VotesWithLockTime{Candidate: p.owner.pub, Votes: old.Votes, LockTime: uint32(it.Y)}
 			dvi := payload.DetailedVoteInfo{StakeProgramHash: voters[it.A].stakeAddr, TransactionHash: tx.Hash(),
 				PayloadVersion: payload.VoteVersion, VoteType: outputpayload.DposV2, Info: []payload.VotesWithLockTime{info}}
 			delete(after.votes, it.X)
@@ -474,6 +476,9 @@ func compareProj(spec map[string]interface{}, real map[string]interface{}) []str
 				return
 			}
 			for k, v := range x {
+				if k == "taint" {
+					continue // bookkeeping of the spec only
+				}
 				cmp(path+"."+k, v, y[k])
 			}
 		case []interface{}:
